@@ -198,8 +198,10 @@ pub fn list(ctx: &mut Ctx) {
                     // extract expands solid entries always
                     let sel_all: Vec<&LEntry> = rows.iter().map(|r| &r.1).filter(|e| sel.as_ref().map(|v| v.contains(&e.name)).unwrap_or(true)).collect();
                     fn hardlink_ok(e: &&&LEntry) -> bool { e.kind != 3 }
+                    // a successful run has created every selected hard link as well (a link whose source is missing or not
+                    // selected makes the run fail, and then nothing is compared)
                     let mut want_paths: std::collections::BTreeSet<String> = Default::default();
-                    for e in sel_all.iter().filter(hardlink_ok) { if !e.name.is_empty() { want_paths.insert(e.name.clone()); } }
+                    for e in sel_all.iter() { if !e.name.is_empty() { want_paths.insert(e.name.clone()); } }
                     let dup = { let mut v: Vec<&String> = sel_all.iter().map(|e| &e.name).collect(); v.sort(); let l = v.len(); v.dedup(); v.len() != l };
                     let prefix_conflict = sel_all.iter().any(|a| sel_all.iter().any(|b| b.name.starts_with(&format!("{}/", a.name)) && a.kind != 1));
                     if xr.ok() && !dup && !prefix_conflict {
